@@ -9,6 +9,7 @@ from typing import (
     List,
     Optional,
     Protocol,
+    Set,
     Tuple,
     Union,
     cast,
@@ -127,19 +128,33 @@ def resolve1(x: object, default: object = None) -> Any:
     return x
 
 
-def resolve_all(x: object, default: object = None) -> Any:
+def resolve_all(
+    x: object,
+    default: object = None,
+    _path: Optional[Set[int]] = None,
+) -> Any:
     """Recursively resolves the given object and all the internals.
 
     Make sure there is no indirect reference within the nested object.
     This procedure might be slow.
     """
+    if _path is None:
+        _path = set()
+    entered = []
     while isinstance(x, PDFObjRef):
+        if x.objid in _path:
+            # the object (indirectly) contains a reference to itself
+            x = default
+            break
+        _path.add(x.objid)
+        entered.append(x.objid)
         x = x.resolve(default=default)
     if isinstance(x, list):
-        x = [resolve_all(v, default=default) for v in x]
+        x = [resolve_all(v, default=default, _path=_path) for v in x]
     elif isinstance(x, dict):
         for k, v in x.items():
-            x[k] = resolve_all(v, default=default)
+            x[k] = resolve_all(v, default=default, _path=_path)
+    _path.difference_update(entered)
     return x
 
 
